@@ -169,10 +169,15 @@ def match_known(pid, issue):
     return None
 
 
+_REPLAY_N = 0
+
+
 def write_replay(pid, payload):
     d = os.path.join(VERIF, "replays")
     os.makedirs(d, exist_ok=True)
-    p = os.path.join(d, f"{pid}-{int(time.time())}-{os.getpid()}.json")
+    global _REPLAY_N
+    _REPLAY_N += 1
+    p = os.path.join(d, f"{pid}-{int(time.time())}-{os.getpid()}-{_REPLAY_N}.json")
     with open(p, "w") as f:
         json.dump(payload, f, indent=1, default=str)
     return p
